@@ -256,6 +256,16 @@ def oracle(cases, order, impl, skeleton):
                         if ssts:
                             stats["reuse_linked"] = stats.get("reuse_linked", 0) + 1
                             nontrivial.add(vlib.case_hash("\t".join(c)))
+        elif kind == "FF":
+            stats["failed_transfers"] = stats.get("failed_transfers", 0) + 1
+            m = re.match(r"^first=(\S+) half=(\S+) second=(\S+) restore=(\S+)$", out)
+            # the first transfer is made to fail; then: a loud refusal or the source's content, never anything else
+            if not m or m.group(1) != "err" or m.group(2) == "ACCEPTED" or m.group(4) not in ("exact", "nobackup") \
+                    or (m.group(3) == "ok" and m.group(4) != "exact"):
+                fails.append(dict(name="failedfetch-" + cid, base=cid, signature=H_SIG,
+                                  what="a snapshot transfer whose copy failed midway (%s): the half directory passed for a backup or the retry "
+                                       "did not end with the source's content: %s" % (c[1], out[:200])))
+            nontrivial.add(vlib.case_hash("\t".join(c)))
         elif kind in ("CB", "CR", "CF"):
             stats["crash_cases"] = stats.get("crash_cases", 0) + 1
             good = {"CB": ("killed checkpoint-refused", "killed checkpoint-restores-exactly", "checkpoint-refused-or-exact"),
@@ -642,7 +652,7 @@ def run(ctx):
             byk = {}
             for cid in order:
                 byk.setdefault(cases[cid][0], cid)
-            for kd in ("P", "F", "TO", "L", "G", "H", "E", "I", "CB", "CR", "CF", "K"):
+            for kd in ("P", "F", "TO", "L", "G", "H", "E", "I", "FF", "CB", "CR", "CF", "K"):
                 if kd in byk:
                     cid = byk[kd]
                     samples.append(dict(case=[x[:160] for x in cases[cid]], impl=(impl.get(cid) or "")[:300]))
@@ -674,6 +684,7 @@ def run(ctx):
              "G: node.GetValidBackupInfo against one HTTP stub per peer (same host / other host, own data root, refusing, unreachable; the stub rejects "
              "any request that is not the checkbackup of exactly the requested snapshot); H: node.handleReuseOldCheckpoint on crafted backup directories "
              "(source_node_info per checkpoint, shared hard links, the new directory present or not, from the same or another source); "
+             "FF: a transfer through PrepareSnapshot whose cp fails midway (a cp wrapper on PATH with a 64 KB file size limit), process alive, then retry and restore; "
              "CB/CR/CF: a child process is killed (SIGKILL, with its cp child) inside a backup, a restore, a snapshot transfer — at each named crash point "
              "of rockredis.go and at random moments — and the store is restarted the way node/raft.go does; "
              "E: two checkpoints fetched and restored, the source falls back to its first checkpoint and reuses sst numbers with other content, third fetch; K: 32MB unflushed memtable + INCR traffic racing with the checkpoint copy. "
